@@ -22,6 +22,10 @@ class Ctx:
 
 def setup_ctx(cfg):
     ctx = Ctx(cfg)
+    if not ctx.params.greedy:
+        # Max-SMT back-end: the solver binaries are empty files in this tree; the stand-in enumerator answers instead
+        from . import standin
+        standin.install()
     # warm-up: the first blocks a forked child processes pay for the copy-on-write faults of the imported heap
     # (seconds of kernel time under contention); keep that out of any measured unit
     for blk in ([("PUSH", 1), ("PUSH", 2), ("ADD", None), ("DUP2", None), ("MSTORE", None)],
